@@ -2,7 +2,7 @@
 import ast
 
 from .model import AnalysisError
-from .rules import twin, effect, work, feedback, models, misc, state, fresh, pda_rules, build, dispatch, io as iorules, closed, ka_rules, cyk, bound, order, visitor, small_models, small_models2
+from .rules import twin, effect, work, feedback, models, misc, state, fresh, pda_rules, build, dispatch, io as iorules, closed, ka_rules, cyk, bound, order, visitor, small_models, small_models2, small_models3
 
 ALG = ['dfa_algorithms', 'nfa_algorithms', 'pda_algorithms', 'tm_algorithms', 'cfg_algorithms', 'regexp_algorithms']
 
@@ -509,6 +509,8 @@ STATE_NAME_CHAINS = [
 
 
 def check_C13(ctx, rep):
+    small_models3.check_text_roundtrip(ctx, rep)
+    rep.clauses_decided.append('the text printed for a model reference automaton is read back as that automaton by the parser the checkers use (M35, finite model)')
     small_models2.check_subset_name_readers(ctx, rep, ctx.prog.func('notebook_nfa2dfa.check_nfa_to_dfa_answer'), ctx.prog.func('dfa.print_state_set'))
     rep.clauses_decided.append('the helper of the NFA-to-DFA checker that decodes subset names inverts print_state_set on the empty set, a singleton and larger sets (R-IO.inv, finite model)')
     rep.clauses_decided += ['every template command has a branch of matching arity and every checker call resolves with matching arity (R-DISPATCH c)',
@@ -549,6 +551,8 @@ def check_C13(ctx, rep):
 
 
 def check_C16(ctx, rep):
+    small_models3.check_text_roundtrip(ctx, rep)
+    rep.clauses_decided.append('parse_X(print_X(A)) equals A field by field on model DFAs, NFAs, PDAs and TMs (empty accepting set, empty alphabet, states without transitions, several labels per edge, names that are prefixes of one another, states named like keywords of the other kinds, declared symbols that no transition uses, epsilon / blank symbols other than the default) under two iteration orders of sets (M35, finite model; the line parser, the builders and the class invariants are interpreted by the analyser, re functions on model strings are the analyser\'s own)')
     rep.clauses_decided += ['keywords (R-IO a)', 'label layout roles and arity (R-IO b)', 'operator tokens, precedence order, symbol class (R-IO d)',
                             'CFG epsilon spelling and rule layout (R-IO e)', 'generated parsers match the .g4 files (R-IO f)', 'declared-versus-empty (R-BUILD)']
     rep.not_decided += ['field-by-field equality of the re-parsed object']
@@ -575,6 +579,9 @@ def check_C16(ctx, rep):
 
 
 def check_C17(ctx, rep):
+    small_models3.check_descriptions(ctx, rep)
+    rep.clauses_decided.append('on model descriptions of each kind the parser returns exactly the automaton written next to the well-formed texts (line orders, omitted declarations, comments, several labels per line, default and recognised epsilon) and raises on each single-fault text: not deterministic, not total, undeclared state / symbol, no or two initial states, repeated declaration, incomplete or ill-formed transition, a name with a well-formed prefix only (M36, finite model)')
+    small_models3.check_text_roundtrip(ctx, rep)
     rep.clauses_decided += ['every builder passes through the declared-states, label, single-initial-state and symbol checks before constructing; DFA also determinism and totality (must-pass-through)',
                             'each check raises exactly under its condition (guard polarity)', 'every keyword store is dominated by the duplicate check for the same keyword',
                             'constructors validate; class invariant atoms present', 'declared-versus-empty', 'label decoding roles and arity (R-IO b)']
